@@ -183,7 +183,7 @@ def gen_cases(ctx):
 
 
 def run(ctx):
-    ctx.prove(["PvModel.Props.C04", "PvModel.Props.T04", "PvModel.Props.R04", "PvModel.Props.R00"])
+    ctx.prove(["PvModel.Props.C04", "PvModel.Props.T04", "PvModel.Props.R04", "PvModel.Props.R00", "PvModel.Props.T02"])
     run_suite(ctx, "C04")
     termination_probe(ctx)
     real_runs(ctx)
@@ -196,7 +196,7 @@ def real_runs(ctx):
     ctx.suites_run.append(oracles.SUITE)
     ctx.rule("real runs: every optimizer × {budget only, fitness_error near the rates it reaches, early stopping (patience 1..3 × min_delta 1e-4..10)} × min/max × serial(/thread): "
              "shape, budget, rate = |1 − mean fitness| bit-exact, stop cycle = first cycle of the declarative criterion over the reported rates; "
-             "one run in three is the second run of its instance")
+             "one run in three is the second run of its instance; one in six has an objective that itself runs another optimizer instance (re-entrancy)")
     js = []
     for name in optimizers.names():
         for i in range(3 if not ctx.thorough else 10):
@@ -207,6 +207,11 @@ def real_runs(ctx):
             kind = rng.choice(trace.CONT_KINDS)
             js.append({"name": name, "kind": kind, "specs": trace.task_specs(rng, kind, rng.choice([1, 2, 3, 5])), "objective": rng.choice(["sphere", "linear", "rastrigin"]),
                        "minmax": rng.choice(["min", "max"]), "seed": rng.randrange(1, 10 ** 6), "cfg": cfg, "mode": rng.choice(["serial", "serial", "thread"]), "trace": False})
+            if i == 1 and rng.random() < 0.5:
+                # re-entrancy: every objective evaluation runs another optimizer instance to completion
+                js[-1]["nested"] = True
+                js[-1]["cfg"]["max_cycles"] = min(js[-1]["cfg"]["max_cycles"], 4)
+                js[-1]["mode"] = "serial"
             if i == 0:
                 # the judged run is the SECOND one of its instance (same task, other seed): counters and rate histories of the first run must not show
                 js[-1]["warmup"] = {"seed": rng.randrange(1, 10 ** 6)}
